@@ -162,7 +162,7 @@ def run(tier, seed):
         mode = ("propagated" if ci % 2 else "propagated_safe") if c["propagated"] else ("service" if ci % 2 else "service_safe")
         cid = "c%d" % ci
         docs.append(json.dumps({"id": cid, "code": code, "name": "Verif:Err%d" % (ci % 7), "instance": inst, "mode": mode, "params": params,
-                                "by_ref": ci % 3 == 0}))     # every third error type is handed over by reference (&T implements ErrorType too)
+                                "by_ref": ci % 3 == 0, "wrap_id": ci % 3 == 1}))     # ... and every third instance id through ErrorType::with_instance_id     # every third error type is handed over by reference (&T implements ErrorType too)
         meta[cid] = (c, plist, expected, code, "Verif:Err%d" % (ci % 7), inst)
     text = vc.harness_parallel("vh", ["errors"], docs, nproc=4)
     replayed = 0
